@@ -663,7 +663,11 @@ def replay_delayed_error(r):
 
 
 def build_cases(tier="quick"):
-    return handler_cases() + handle_arm_cases() + delayed_error_cases()
+    # the failing branch of an assertion keeps exactly its own constraints only if it does not share the parent's table
+    from contracts import c02
+
+    ref = [Case(f"{PROP}/sevm.Path.branch#conditions-owned", c.case, c.harness, replay=c.replay, sources=c.sources) for c in c02.path_cases() if "Path.branch" in c.unit or "Path.activate" in c.unit]
+    return handler_cases() + handle_arm_cases() + delayed_error_cases() + ref
 
 
 def grounds():
